@@ -3,6 +3,11 @@
 package evaluator
 
 import (
+	"time"
+
+	"github.com/karrick/goswarm"
+	"go.uber.org/zap"
+
 	"github.com/linkedin/Burrow/core/protocol"
 )
 
@@ -17,4 +22,53 @@ func VerifCalculatePartitionStatus(offsets []*protocol.ConsumerOffset, brokerOff
 // VerifEvaluatePartitionStatus calls evaluatePartitionStatus.
 func VerifEvaluatePartitionStatus(partition *protocol.ConsumerPartition, minimumComplete float32, allowedLag uint64) *protocol.PartitionStatus {
 	return evaluatePartitionStatus(partition, minimumComplete, allowedLag)
+}
+
+// VerifNewCachingEvaluator builds a CachingEvaluator with the given settings and its goswarm cache exactly
+// as Configure does, without reading viper.
+func VerifNewCachingEvaluator(app *protocol.ApplicationContext, expireCache int, minimumComplete float32, allowedLag uint64) (*CachingEvaluator, error) {
+	module := &CachingEvaluator{
+		App:             app,
+		Log:             zap.NewNop(),
+		name:            "verif",
+		expireCache:     expireCache,
+		minimumComplete: minimumComplete,
+		allowedLag:      allowedLag,
+		RequestChannel:  make(chan *protocol.EvaluatorRequest),
+	}
+	cacheExpire := time.Duration(module.expireCache) * time.Second
+	newCache, err := goswarm.NewSimple(&goswarm.Config{
+		GoodExpiryDuration: cacheExpire,
+		BadExpiryDuration:  cacheExpire,
+		Lookup:             module.evaluateConsumerStatus,
+	})
+	if err != nil {
+		return nil, err
+	}
+	module.cache = newCache
+	return module, nil
+}
+
+// VerifGetConsumerStatus runs getConsumerStatus synchronously (the reply channel must be buffered).
+func (module *CachingEvaluator) VerifGetConsumerStatus(request *protocol.EvaluatorRequest) {
+	module.getConsumerStatus(request)
+}
+
+// VerifEvaluateConsumerStatus calls evaluateConsumerStatus (the cache's lookup function) directly.
+func (module *CachingEvaluator) VerifEvaluateConsumerStatus(clusterAndConsumer string) (interface{}, error) {
+	return module.evaluateConsumerStatus(clusterAndConsumer)
+}
+
+// VerifAgeCache moves the expiry of every cached entry back by d, which is observationally the same as
+// the wall clock advancing by d.
+func (module *CachingEvaluator) VerifAgeCache(d time.Duration) {
+	module.cache.Range(func(_ string, tv *goswarm.TimedValue) {
+		if !tv.Expiry.IsZero() {
+			tv.Expiry = tv.Expiry.Add(-d)
+		}
+		if !tv.Stale.IsZero() {
+			tv.Stale = tv.Stale.Add(-d)
+		}
+		tv.Created = tv.Created.Add(-d)
+	})
 }
